@@ -20,7 +20,7 @@ func init() {
 	core.Register(&core.Prop{
 		ID:    "C11",
 		Level: "fault_enumeration",
-		Rule: "enumerated completely: (operation O1 of kafka.Conn) x (negotiated version of its API) x (error field of its response) x (error code) x (following operation O2). O1 runs on connection A whose broker answers with the code in that field; then O2 runs on A and on a fresh connection B against an identical broker; outcome (value digest, error class) must agree. " +
+		Rule: "enumerated completely: (operation O1 of kafka.Conn) x (negotiated version of its API) x (error field of its response) x (error code: 12 codes in the quick tier, every code -1, 1..97 in the thorough tier) x (following operation O2). O1 runs on connection A whose broker answers with the code in that field; then O2 runs on A and on a fresh connection B against an identical broker; outcome (value digest, error class) must agree. " +
 			"framing list: wrong correlation id, oversized / undersized frame length, trailing garbage after O1's response: every later operation on A must fail and none may return a value that differs from B's. signature = (O1, version, field, code class, O2); every case is non-trivial (a fault is always injected)",
 		Assumptions: []string{
 			"broker state is identical for A and B: the injected error response replaces the broker's action (nothing is applied)",
@@ -83,7 +83,7 @@ type c11Case struct {
 	code   int16
 }
 
-func c11Enumerate() []c11Case {
+func c11Enumerate(codes []int16) []c11Case {
 	ops := connOps()
 	var out []c11Case
 	for i, o1 := range ops {
@@ -92,7 +92,7 @@ func c11Enumerate() []c11Case {
 				if v < pl.MinVer {
 					continue
 				}
-				for _, code := range c11Codes {
+				for _, code := range codes {
 					for j := range ops {
 						out = append(out, c11Case{i, j, v, pi, code})
 					}
@@ -112,7 +112,16 @@ func c11Enumerate() []c11Case {
 
 func runC11(c *core.Ctx) {
 	ops := connOps()
-	cases := c11Enumerate()
+	codes := c11Codes
+	if !c.Quick() {
+		// every error code the protocol defines (-1 and 1..97), not only the twelve that the library
+		// treats specially somewhere
+		codes = []int16{-1}
+		for code := int16(1); code <= 97; code++ {
+			codes = append(codes, code)
+		}
+	}
+	cases := c11Enumerate(codes)
 	c.SetExhaustive(true)
 	c.CasesPar("errors", len(cases), 4, func(k *core.Case) {
 		cs := cases[k.Idx]
